@@ -14,6 +14,12 @@ pub mod basic_adapter;
 pub mod error;
 pub mod execution;
 mod filtering;
+#[cfg(feature = "verif")]
+#[doc(hidden)]
+pub use filtering::verif_hooks as verif_filtering;
+#[cfg(feature = "verif")]
+#[doc(hidden)]
+pub use hints::verif_candidates;
 pub mod helpers;
 mod hints;
 pub mod replay;
